@@ -51,7 +51,8 @@ Definition post (f : fault) (a : actor) : actor :=
     (0 none, 1 NetworkFailure, 2 HostFailure, 3 other); o_done: the operation the actor was blocked on when the resource
     went off returned successfully afterwards (at any later date: the resource is off during the whole of
     [T, completion]); o_end: what the actor is blocked on when the engine reports a deadlock at the end (kind 0 when it
-    is not blocked or there is no deadlock) *)
+    is not blocked or there is no deadlock).  An actor that is suspended at date T makes no step until it is resumed: for
+    it o_exc is what the operation it was blocked on raises at that point (the checker resumes every suspended actor) *)
 Record obs := mkObs { o_actor : actor; o_killed : bool; o_failed : bool; o_exc : Z; o_done : bool; o_end : wait }.
 
 (** verdict for one actor: 0 fine, 1 an actor of the failed host survives, 2 its on_exit saw failed = false,
